@@ -10,7 +10,7 @@
    createCVFullyIndexed / createCVBatch layouts, preservation of the element shape (the shape is not
    part of the Coq model; it is compared by the correspondence run).                                *)
 From Coq Require Import List Arith Permutation.
-From SharkV Require Import ListAux C03Model C03Proofs C12Model C12Proofs.
+From SharkV Require Import ListAux C03Model C03Proofs C03Class C12Model C12Proofs.
 Import ListNotations.
 
 Theorem C12_same_size_fold_sizes :
@@ -52,6 +52,13 @@ Theorem C12_training_is_complement :
     Permutation (dv ++ dt) (cv_set c) /\ Permutation (elems dv ++ elems dt) (elems (cv_set c)).
 Proof. intros A. exact (@training_is_complement A). Qed.
 Print Assumptions C12_training_is_complement.
+
+(* createCVSameSizeBalanced: the round-robin dealing of the members is a permutation of them, so
+   (with members = a permutation of all positions) no element is lost or duplicated *)
+Theorem C12_balanced_dealing_is_permutation :
+  forall s k, 0 < k -> Permutation (dealt_order s k) s.
+Proof. exact dealt_order_perm. Qed.
+Print Assumptions C12_balanced_dealing_is_permutation.
 
 Example C12_example :
   exists c, cv_indexed 0 [1;0;1;2;0] 3 2 [[10;11;12];[13;14]] = Some c /\
